@@ -1,9 +1,9 @@
 SPECIFICATION Spec
-CONSTANT MaxReg = 3
+CONSTANT MaxReg = 2
 CONSTANT MaxUnreg = 1
-CONSTANT MaxLen = 3
-CONSTANT MaxGen = 0
-CONSTANT Narrow = FALSE
+CONSTANT MaxLen = 4
+CONSTANT MaxGen = 2
+CONSTANT Narrow = TRUE
 CONSTANT Rich = FALSE
 INVARIANT TypeOK
 INVARIANT ScopePartition
